@@ -17,6 +17,8 @@
  *                                                   | openerr <kind> <errno> <detail|->    (error of clockbound_open)
  *   sopen <path>                                   -> ok | err <kind> <errno> <detail|->   (the context stays open:)
  *   snow <real_s> <real_ns> <mono_s> <mono_ns>     -> <clock ids read, in order> : ok … | err …    (clockbound_now on it)
+ *   snoww <4 ints> <path> <hex: generation word + record>   the same, and at the FIRST clock read of the call the given bytes are
+ *                                                  written to the segment file (the daemon publishes while the client is in its call)
  *   sclose                                         -> ok | closeerr …
  *   abi                                            -> abi <sizeof, (offset size)* of clockbound_err> ; <same of clockbound_now_result> ; <err kinds> ; <status values>
  *   ping                                           -> pong <clock reads intercepted so far>
@@ -40,8 +42,19 @@ static int read_log[64]; static int read_n = 0;
 static void log_read(clockid_t clk) { if (read_n < 64) read_log[read_n++] = (int)clk; }
 static clockbound_ctx *session_ctx = NULL;
 
+/* one-shot: bytes to write into the segment file at the next intercepted clock read */
+static char pend_path[4096]; static unsigned char pend_img[128]; static int pend_n = 0;
+static void pend_flush(void)
+{
+	if (pend_n <= 0) return;
+	int fd = open(pend_path, O_WRONLY);
+	if (fd >= 0) { if (pwrite(fd, pend_img + 2, (size_t)pend_n - 2, 16) < 0 || pwrite(fd, pend_img, 2, 14) < 0) { /* reported by the answer differing */ } close(fd); }
+	pend_n = 0;
+}
+
 int clock_gettime(clockid_t clk, struct timespec *ts)
 {
+	if (virt_on && pend_n > 0) pend_flush();
 	if (virt_on) log_read(clk);
 	if (virt_on && clk == CLOCK_REALTIME) { *ts = v_real; reads_real++; return 0; }
 	if (virt_on && (clk == CLOCK_MONOTONIC_COARSE || (virt_on == 1 && clk == CLOCK_MONOTONIC))) { *ts = v_mono; reads_mono++; return 0; }
@@ -144,6 +157,24 @@ int main(void)
 			virt_on = 2;
 			const clockbound_err *e = clockbound_now(session_ctx, &res);
 			virt_on = 0;
+			for (int k = 0; k < read_n; k++) printf("%d ", read_log[k]);
+			printf(": ");
+			if (e != NULL) print_err("err", e);
+			else printf("ok %lld %lld %lld %lld %d\n", (long long)res.earliest.tv_sec, (long long)res.earliest.tv_nsec,
+				    (long long)res.latest.tv_sec, (long long)res.latest.tv_nsec, (int)res.clock_status);
+		} else if (strncmp(line, "snoww ", 6) == 0) {
+			char hex[512];
+			if (sscanf(line, "snoww %lld %lld %lld %lld %4095s %511s", &rs, &rn, &ms, &mn, pend_path, hex) != 6) { printf("bad-request\n"); continue; }
+			if (session_ctx == NULL) { printf("closed\n"); continue; }
+			size_t hl = strlen(hex); pend_n = 0;
+			for (size_t k = 0; k + 1 < hl && pend_n < (int)sizeof pend_img; k += 2) { unsigned v; sscanf(hex + k, "%2x", &v); pend_img[pend_n++] = (unsigned char)v; }
+			clockbound_now_result res; memset(&res, 0x5a, sizeof res);
+			v_real.tv_sec = rs; v_real.tv_nsec = rn; v_mono.tv_sec = ms; v_mono.tv_nsec = mn;
+			read_n = 0;
+			virt_on = 2;
+			const clockbound_err *e = clockbound_now(session_ctx, &res);
+			virt_on = 0;
+			pend_flush();   /* a call that read no clock: publish now, the session goes on from the same state */
 			for (int k = 0; k < read_n; k++) printf("%d ", read_log[k]);
 			printf(": ");
 			if (e != NULL) print_err("err", e);
